@@ -1,0 +1,36 @@
+//! Verification hook (cargo feature `verif`): entry counts of every map of the module index.
+//! The exhaustive destructuring makes a new field break this build until it is accounted for.
+use super::LuaModuleIndex;
+
+impl LuaModuleIndex {
+    pub fn verif_report(&self) -> Vec<(&'static str, usize)> {
+        let Self {
+            module_patterns: _,
+            module_root_id: _,
+            module_nodes,
+            file_module_map,
+            module_name_to_file_ids,
+            workspaces: _,
+            id_counter: _,
+            fuzzy_search: _,
+            module_replace_vec: _,
+        } = self;
+        vec![
+            ("module.module_nodes", module_nodes.len()),
+            (
+                "module.module_nodes.children",
+                module_nodes.values().map(|n| n.children.len()).sum(),
+            ),
+            (
+                "module.module_nodes.file_ids",
+                module_nodes.values().map(|n| n.file_ids.len()).sum(),
+            ),
+            ("module.file_module_map", file_module_map.len()),
+            ("module.module_name_to_file_ids", module_name_to_file_ids.len()),
+            (
+                "module.module_name_to_file_ids.ids",
+                module_name_to_file_ids.values().map(|v| v.len()).sum(),
+            ),
+        ]
+    }
+}
